@@ -5,3 +5,5 @@
 mod c11;
 #[cfg(kani)]
 mod c18;
+#[cfg(kani)]
+mod c15;
